@@ -61,6 +61,15 @@ def followup(stage, lines, model, checked, release, tier, rng):
         for n in lens:
             msg = R(n)
             L.append(K.sign_raw(s, msg, sk, 0))
+        # crafted secret keys (extreme t0): the ||c t0|| and hint-count rejections, exactly-omega hints -- branches that
+        # honest keys reach with probability < 1e-4; the signature need not verify, it must be the specification's
+        for frac in (0.2, 0.35, 0.5, 0.7):
+            csk = K.craft_sk(s, sk, p.k, frac, rng)
+            for _ in range(8 if tier == "quick" else 60):
+                L.append(K.sign_raw(s, R(8), csk, 0))
+        csk = K.craft_sk(s, sk, 1, 1.0, rng)
+        for _ in range(4 if tier == "quick" else 120):
+            L.append(K.sign_raw(s, R(8), csk, 0))
         msg = R(50)
         L.append(K.sign_raw(s, msg, sk, 1, R(70)))      # hedged / randomized with a scripted tape
         L.append(K.sign_raw(s, msg, sk, 1, R(70)))
